@@ -30,7 +30,7 @@ def build(tier, rnd):
     if tier == "quick":
         for key, st in d1:
             out.append((key, st, ["ansi"]))
-        g = sqlgen.Gen(random.Random(common.env.seed() * 7919 + 1))
+        g = sqlgen.Gen(random.Random(common.env.seed() * 7919 + 1), scalar_p=0.1)
         rot = [alld[(common.env.seed() * 3 + i) % len(alld)] for i in range(3)]
         for i in range(700):
             st = g.statement(rnd.choice([1, 2, 2, 3]))
@@ -43,7 +43,7 @@ def build(tier, rnd):
             out.append((key, st, alld))
         for key, st in sqlgen.enumerate_depth2(0):
             out.append((key, st, ["ansi"] + [alld[(hash(str(key)) + k) % len(alld)] for k in range(2)]))
-        g = sqlgen.Gen(random.Random(common.env.seed() * 7919 + 1))
+        g = sqlgen.Gen(random.Random(common.env.seed() * 7919 + 1), scalar_p=0.1)
         for i in range(5000):
             st = g.statement(rnd.choice([2, 3, 3, 4]))
             out.append((("random", i), st, ["ansi", alld[i % len(alld)], alld[(i * 7 + 3) % len(alld)]]))
